@@ -18,6 +18,13 @@ function decodeArg(a) {
       case "Infinity": return Infinity;
       case "-Infinity": return -Infinity;
       case "object": return {};
+      case "bigint": return BigInt(a.v || "5");
+      case "boxedString": return new String(a.v || "6");
+      case "boxedNumber": return new Number(a.v || "5");
+      case "symbol": return Symbol("x");
+      case "function": return function () { return 5; };
+      case "date": return new Date(0);
+      case "negzero": return -0;
       case "array": return [];
       case "num": return Number(a.v);           // numbers beyond JSON-safe text
       default: throw new Error("bad arg " + JSON.stringify(a));
